@@ -122,6 +122,134 @@ def route_formulas(prog, n, p, live, h, stats):
     return {i: (z3.Or(*c) if c else z3.BoolVal(False)) for i, c in out.items()}, (z3.Or(*bad_local) if bad_local else z3.BoolVal(False))
 
 
+class NamingSink:
+    def __init__(self):
+        self.ty = "NamingAddr"
+        self.sent = []
+
+
+def variant_name(m):
+    if isinstance(m, Enum):
+        return m.variant
+    if hasattr(m, "name"):
+        return str(m.name).split("::")[-1]
+    return str(m)
+
+
+def liveness_obligation(prog, tier):
+    """s14_liveness: the cached owner range follows the liveness transitions. Every history of k steps over
+    {timer tick (check_node_status), a ping from a peer (active_node)} with the clock on a grid around the 15 s time-out: after every
+    timer tick the range the node answers ownership questions with (current_range) is the range of the live set it would route by."""
+    k = 3 if tier == "quick" else 4
+    ob = {"engine": "smt", "harness": "s14_liveness_transitions", "encodes_files": FILES, "queries": 0, "solver_s": 0.0, "distinct": 0,
+          "encodes": ["InnerNodeManage::{check_node_status,active_node,update_process_range,get_current_process_range,update_nodes_index,clear_timeout_process_range}", "ClusterInnerNode::is_valid"],
+          "bound": "cluster of 3 nodes, local node = each of them; every history of %d steps over {timer tick, ping from either peer}; clock on the grid start + [1, 10, 20, 40] s (time-out 15 s)" % k}
+    t0 = time.time()
+    try:
+        clock = {"now": 0}
+        it = rseval.Interp(prog)
+        it.lenient = True
+        it.fn_models["now_millis"] = lambda interp, args: clock["now"]
+        it.models[("NamingAddr", "do_send")] = lambda interp, recv, args: recv.sent.append(args[0]) or ()
+        stepv = [z3.BitVec("step%d" % i, 8) for i in range(k)]
+        timev = [z3.BitVec("time%d" % i, 8) for i in range(k)]
+        BASE = 1_700_000_000_000  # epoch milliseconds: now_millis() - 15000 does not wrap
+        GRID = [BASE + 1000, BASE + 10000, BASE + 20000, BASE + 40000]
+        covers = {"a peer times out": 0, "a timed-out peer comes back": 0, "owner range changes at a tick": 0}
+        viol = None
+        npaths = 0
+        for local_pos in range(3):
+            peers = [i for i in range(3) if i != local_pos]
+
+            def pick(var, options):
+                for j, o in enumerate(options[:-1]):
+                    if it.branch(var == j):
+                        return o
+                return options[-1]
+
+            def thunk(local_pos=local_pos, peers=peers):
+                live = [True, True, True]
+                st = build_state(3, local_pos, [z3.BoolVal(True)] * 3)
+                sink = NamingSink()
+                st["naming_actor"] = Some(sink)
+                for n_ in st["all_nodes"].values():
+                    n_["status"] = Enum("NodeStatus", "Valid")
+                    n_["last_active_time"] = BASE
+                clock["now"] = BASE
+                it.call_method("InnerNodeManage", "update_nodes_index", st, [])
+                it.call_method("InnerNodeManage", "update_process_range", st, [])
+                log = []
+                last_t = BASE
+                was_down = set()
+                for i in range(k):
+                    t = pick(timev[i], GRID)
+                    if t < last_t:
+                        raise rseval.PathAbort()
+                    last_t = t
+                    clock["now"] = t
+                    op = pick(stepv[i], ["tick", "ping-a", "ping-b"])
+                    if op == "tick":
+                        before = (st["current_range"]["index"], st["current_range"]["len"])
+                        n_sent = len(sink.sent)
+                        it.call_method("InnerNodeManage", "check_node_status", st, [])
+                        log.append(("tick", "+%ds" % ((t - BASE) // 1000)))
+                        for nid, n_ in st["all_nodes"].items():
+                            if isinstance(n_["status"], Enum) and n_["status"].variant == "Invalid":
+                                if nid not in was_down:
+                                    covers["a peer times out"] += 1
+                                was_down.add(nid)
+                        want = it.call_method("InnerNodeManage", "get_current_process_range", st, [])
+                        have = st["current_range"]
+                        if (have["index"], have["len"]) != (want["index"], want["len"]):
+                            valid = [nid for nid, n_ in st["all_nodes"].items() if isinstance(n_["status"], Enum) and n_["status"].variant == "Valid"]
+                            return ("violation", "after a timer tick node %d answers ownership with range (index %s of %s) although the live set %s gives (index %s of %s)"
+                                    % (IDS[local_pos], have["index"], have["len"], valid, want["index"], want["len"]), log, "stale-owner-range")
+                        if (have["index"], have["len"]) != before:
+                            # the naming actor decides take-over (heartbeat supervision, at_process_range) by its own copy of the range
+                            told = [m_ for m_ in sink.sent[n_sent:] if variant_name(m_) == "ClusterRefreshProcessRange"]
+                            ok_ = False
+                            for m_ in told:
+                                a_ = m_.payload if isinstance(m_, Enum) else getattr(m_, "args", None)
+                                if a_ and isinstance(a_[0], Struct) and (a_[0]["index"], a_[0]["len"]) == (have["index"], have["len"]):
+                                    ok_ = True
+                            covers["owner range changes at a tick"] = covers.get("owner range changes at a tick", 0) + 1
+                            if not ok_:
+                                return ("violation", "a peer's liveness changed and node %d now owns range (index %s of %s) instead of (index %s of %s), but its naming actor is not told: "
+                                        "services it took over get no heartbeat supervision" % (IDS[local_pos], have["index"], have["len"], before[0], before[1]), log, "naming-actor-range-stale")
+                    else:
+                        peer = IDS[peers[0] if op == "ping-a" else peers[1]]
+                        n_ = st["all_nodes"][peer]
+                        if isinstance(n_["status"], Enum) and n_["status"].variant == "Invalid":
+                            covers["a timed-out peer comes back"] += 1
+                        it.call_method("InnerNodeManage", "active_node", st, [peer])
+                        log.append(("ping from %d" % peer, "+%ds" % ((t - BASE) // 1000)))
+                return ("ok", None, log, None)
+            paths = it.explore(thunk, max_paths=200000)
+            npaths += len(paths)
+            for pc, r, exc in paths:
+                if exc is not None:
+                    viol = {"message": "panic in the node manager: %s" % exc, "tags": ["panic"], "model": {}}
+                    break
+                if r[0] == "violation":
+                    viol = {"message": r[1], "tags": [r[3]], "model": {"local_node": IDS[local_pos], "history": [list(map(str, e)) for e in r[2]]}}
+                    break
+            if viol:
+                break
+        ob["queries"] = it.queries
+        ob["solver_s"] = round(time.time() - t0, 1)
+        ob["sample"] = {"paths_explored": npaths, "covers": covers, "opaque_symbols": sorted(it.opaque_seen)[:20]}
+        missing = [c for c, n_ in covers.items() if n_ == 0]
+        if viol:
+            ob.update({"verdict": "violation", "message": viol["message"], "tags": viol["tags"], "counterexample": viol["model"]})
+        elif missing:
+            ob.update({"verdict": "inconclusive", "message": "reachability witness never reached: %s" % missing})
+        else:
+            ob.update({"verdict": "discharged", "distinct": npaths})
+    except rsparse.Unsupported as e:
+        ob.update({"verdict": "inconclusive", "message": "encoder met source it cannot encode: %s" % e})
+    return ob
+
+
 def run(tier, seed):
     t0 = time.time()
     obligations = []
@@ -209,6 +337,7 @@ def run(tier, seed):
             ob.update({"verdict": "inconclusive", "message": "encoder met source it cannot encode: %s" % e})
         obligations.append(ob)
     try:
+        obligations.append(liveness_obligation(prog, tier))
         obligations.append(validate_translator(prog, sizes, 4 if tier == "quick" else 16, seed))
     except rsparse.Unsupported as e:
         obligations.append({"engine": "smt", "harness": "s14_translator_validation", "verdict": "inconclusive", "message": str(e)})
@@ -228,6 +357,11 @@ def replay_native(ob):
         ob["replay_path"] = ""
         return
     ce = ob["counterexample"]
+    if "live" not in ce:
+        path = native.write_replay("C14", "c14", "model", [], {"engine": "smt", "mode": "model-only", "obligation": ob["harness"], "message": ob["message"], "model": ce})
+        ob["replay_path"] = path
+        ob["replay"] = {"path": path, "outcome": "model-only", "message": "history of timer ticks and pings for InnerNodeManage (the native clock cannot be set)"}
+        return
     vals = [[1 if x else 0] for x in ce["live"]] + [[ce["hash"] % 60]]
     path = native.write_replay("C14", "c14", "k14_n%d" % ce["n"], vals, {"engine_s_model": ce})
     ob["replay_path"] = path
